@@ -206,8 +206,15 @@ def genUnmarshalBit (raw : Bytes) (fds : Option (List PyVal)) : String :=
     | .error e1, .error e2 => if e1 == e2 then "1" else "0"
     | _, _ => "0"
 
-/-- Step budget of the general header codec in `buildg` / `parseg` / `forwardg` (4 + the nesting depth of a field value). -/
+/-- Step budget of the general header codec in `buildg`: 4 + the nesting depth of a header value; a constructor stores only
+str / int values (depth 1). -/
 def gFuel : Nat := 64
+
+/-- Step budget of the general header codec in `parseg` / `forwardg`: txdbus enforces no nesting limit (Python's recursion
+limit aside), and every nesting level of a header value costs at least one byte of the message, so `raw.length + 4` per-type
+calls can never run out on `raw` (nor on re-marshalling what was parsed from it).  (Review 3, 3.4: a constant 64 made `parseg`
+answer RecursionError for a variant of type `a^61 i`, which the code parses.) -/
+def gFuelFor (raw : Bytes) : Nat := raw.length + 4
 
 /-- An object of the current history: the message, and how it was constructed (for the `same=` bit of `again`). -/
 structure HObj where
@@ -514,7 +521,7 @@ def parsegStep (toks : List String) : String :=
   match toks with
   | [h, f] =>
     match hexToBytes? h, fds? f with
-    | some raw, some fds => fmtParsed (parseMessageG Gen.Message.tables preCodec gFuel raw fds)
+    | some raw, some fds => fmtParsed (parseMessageG Gen.Message.tables preCodec (gFuelFor raw) raw fds)
     | _, _ => "bad-input"
   | _ => "bad-input"
 
@@ -532,18 +539,18 @@ def forwardgStep (toks : List String) : String :=
     match hexToBytes? h, fds? f, optStr? snd with
     | some raw, some fds, some (some sender) =>
       let T := Gen.Message.tables
-      match raw, parseMessageG T preCodec gFuel raw fds with
+      match raw, parseMessageG T preCodec (gFuelFor raw) raw fds with
       | _, .error e => "err kind=" ++ pyErrName e ++ " cert=-"
       | [], _ => "err kind=IndexError cert=-"
       | b0 :: _, .ok m =>
         let cert := fwdOKB T m && (b0 == 108 || b0 == 66)
         let certS := if cert then "1" else "0"
-        match forwardG T gFuel T.maxMsgLen m b0.toNat sender with
+        match forwardG T (gFuelFor raw) T.maxMsgLen m b0.toNat sender with
         | .error e => "err kind=" ++ pyErrName e ++ " cert=" ++ certS
         | .ok m2 =>
           let thm :=
             if cert then
-              match parseMessageG T preCodec gFuel m2.raw fds with
+              match parseMessageG T preCodec (gFuelFor m2.raw + gFuelFor raw) m2.raw fds with
               | .ok m3 => if fwdViewOK m m3 sender then "1" else "0"
               | .error _ => "0"
             else "-"
